@@ -24,7 +24,7 @@ def generate(seed, tier):
     rng = stream(seed, "c05")
     big = tier == "thorough" and rng.random() < 0.15
     spec = gen_instance(rng, huge=0.03, sparse_ids=0.03, large=0.008, max_jobs=6 if big else 4, max_machines=5 if big else 4, max_ops=5 if big else 4)
-    names, style = gen_filter(rng, None, p_none=0.45, user=0.15)
+    names, style = gen_filter(rng, None, p_none=0.45, user=0.15, emptying=True)
     faulty = rng.random() < 0.5
     extra = [(0.04, lambda r: ["mk_uns"])]
     ops = gen_dispatch_ops(rng, n_ops(spec), p_solve_rest=0.03 if rng.random() < 0.4 else 0.0, p_query=0.45, p_invalid=0.08 if faulty else 0.0,
